@@ -23,8 +23,8 @@ RULE = ('rotations generated from angle triples over the full range with exact s
         'SE2/SO2 accessors. distinct = (api, order/flip/unit, rotation rounded to 9 digits); non-trivial = rotation angle > 1e-6')
 ASSUMPTIONS = ['reconstruction by reference elementary rotations in the documented order',
                'degree results are compared with radian results * 180/pi to 1e-9 relative']
-MIN_EVALS = {'extract': {'quick': 12000, 'thorough': 200000}, 'construct': {'quick': 3000, 'thorough': 50000},
-             'class': {'quick': 3000, 'thorough': 50000}, 'units': {'quick': 2000, 'thorough': 30000}}
+MIN_EVALS = {'extract': {'quick': 12000, 'thorough': 200000}, 'construct': {'quick': 1500, 'thorough': 25000},
+             'class': {'quick': 2000, 'thorough': 30000}, 'units': {'quick': 2000, 'thorough': 30000}}
 ORDERS = {'zyx': 'zyx', 'vehicle': 'zyx', 'xyz': 'xyz', 'arm': 'xyz', 'yxz': 'yxz', 'camera': 'yxz'}
 _ctx = None
 
